@@ -5,7 +5,8 @@
 //   cfg k:v,k:v,...                 --cfg= options (cpu/optim, network/optim, */maxmin-selective-update, ...); `cfg -` = none
 //   sample 0|1|2                    0: only final E records; 1: a T record at every Engine::on_time_advance;
 //                                   2: idem, but remaining is read through the kernel without update (no perturbation)
-//   H name speed cores [period t:v,t:v,...]      host (+ repeating speed profile, values are scale factors)
+//   H name speed cores [period t:v,t:v,...]      host (+ repeating speed profile, values are scale factors);
+//                                                `speed` may be s0,s1,... = one speed per pstate (starts in pstate 0)
 //   L name bw lat S|F [period t:v,...]           link SHARED / FATPIPE (+ bandwidth profile, values are absolute bw)
 //   D host name rbw wbw                          disk
 //   R hostA hostB l1,l2,...                      symmetrical route
@@ -13,6 +14,7 @@
 //   X t comm id src dst bytes rate               host-to-host comm (rate<0: none)
 //   X t io id disk bytes r|w
 //   X t susp id | X t res id | X t bound id b (kernel Action::set_bound) | X t prio id p (Exec::update_priority)
+//   X t pstate host idx                          Host::set_pstate(idx) at date t
 // Numbers are C doubles (hex-floats accepted).  Output tokens (doubles as %a):
 //   T now delta  A id remaining rate  ...  R resid load cap ...      (per on_time_advance)
 //   E id start finish kernel-state(DONE|RUNNING|...)                                          (per activity, at the end)
@@ -166,7 +168,10 @@ static int run_scenario(const std::string& line)
   int pcount = 0;
   for (auto const& t : secs) {
     if (t[0] == "H") {
-      auto* h = zone->add_host(t[1], num(t[2]));
+      std::vector<double> speeds;
+      for (auto const& sp : split(t[2], ','))
+        speeds.push_back(num(sp));
+      auto* h = zone->add_host(t[1], speeds);
       h->set_core_count(atoi(t[3].c_str()));
       if (t.size() > 5)
         h->set_speed_profile(simgrid::kernel::profile::ProfileBuilder::from_string("p" + std::to_string(pcount++),
@@ -243,6 +248,12 @@ static int run_scenario(const std::string& line)
         io->start();
         act_idx[op.a[0]] = acts.size();
         acts.push_back({op.a[0], io, 'i'});
+      } else if (op.kind == "pstate") {
+        auto* h = hmap.at(op.a[0]);
+        h->set_pstate(atoi(op.a[1].c_str()));
+        // in force from now on, i.e. during the step that the next sample reports (unlike profile events, which are
+        // applied at the end of the step they close)
+        prev_cap[h->get_name()] = h->get_speed() * h->get_available_speed() * h->get_core_count();
       } else {
         auto it = act_idx.find(op.a[0]);
         if (it == act_idx.end())
